@@ -23,6 +23,49 @@ RULE = ("valid abstract documents with comments/whitespace markers in every deco
 ASSUMPTIONS = ["normalize() is the six-state scanner of DESIGN.md 3.5, independent of the parser"]
 
 
+def header_order_family(rng, tier):
+    """every order of the headers of a three-level table tree (deep header first, grand-parent later, the table in between
+    last, ...), every table with 0..3 commented key/value lines: re-opening an implicit table must not disturb the lines of
+    its neighbours; plus headers written once with blanks (spaces, tabs) inside the brackets and around the dots."""
+    import itertools
+    out = []
+    paths = [(b"p",), (b"p", b"a"), (b"p", b"a", b"b"), (b"q",), (b"p", b"c")]
+    n_perm = 0
+    for chosen in ([0, 1, 2], [0, 1, 2, 3], [0, 2, 4], [1, 2, 0, 4], [0, 1, 2, 3, 4]):
+        for perm in itertools.permutations(chosen):
+            n_perm += 1
+            if tier == "quick" and len(chosen) == 5 and n_perm % 3:
+                continue
+            text = b""
+            for hi in perm:
+                text += b"[" + b".".join(paths[hi]) + b"]" + (b" # h%d" % hi if rng.random() < 0.5 else b"") + b"\n"
+                for j in range(rng.choice([0, 2, 3, 3])):
+                    text += b"k%d%d = %d" % (hi, j, j) + (b" # c%d%d" % (hi, j) if rng.random() < 0.6 else b"") + b"\n"
+                if rng.random() < 0.3:
+                    text += b"\n"
+            out.append(Case("rt", [text], {"kind": "exact", "n": len(perm) + 2, "family": "header-order"}))
+    # blanks inside the brackets / around the dots, every header path mentioned exactly once (nothing to be inconsistent with)
+    blanks = [b"", b" ", b"\t", b"  ", b" \t"]
+    for _ in range(150 if tier == "quick" else 3000):
+        text = b""
+        used = set()
+        for _h in range(rng.randrange(1, 4)):
+            path = tuple(rng.choice([b"a", b"b", b"c", b"d", b'"e f"', b"'g'"]) for _ in range(rng.randrange(1, 4)))
+            if any(path[:i] in used for i in range(1, len(path) + 1)) or any(u[:len(path)] == path for u in used):
+                continue
+            for i in range(1, len(path) + 1):
+                used.add(path[:i])
+            aot = rng.random() < 0.3
+            inner = (rng.choice(blanks) + b".".join(path) if rng.random() < 0.5 else
+                     rng.choice(blanks) + (rng.choice(blanks) + b"." + rng.choice(blanks)).join(path)) + rng.choice(blanks)
+            text += (b"[[" if aot else b"[") + inner + (b"]]" if aot else b"]") + rng.choice([b"", b" ", b"\t# c"]) + b"\n"
+            for j in range(rng.randrange(0, 3)):
+                text += rng.choice(blanks) + b"k%d" % j + rng.choice(blanks) + b"=" + rng.choice(blanks) + b"%d" % j + rng.choice(blanks) + b"\n"
+        if text:
+            out.append(Case("rt", [text], {"kind": "exact", "n": 2, "family": "header-blanks"}))
+    return out
+
+
 def gen_cases(rng, tier):
     out = []
     n_docs = 8000 if tier == "quick" else 300000
@@ -45,6 +88,7 @@ def gen_cases(rng, tier):
               b"[a] # h\n  x = 1\n\n[b]   \n", b"a = { b = 1, c = { d = 2 } } \n", b"a = [ 1 , 2 , ] \n", b"a = [ ] \n", b"a = { } \n",
               b"\"a\" = 1\n'b' = 2\n", b"a = 1\n[t]\nb = 2\n# trailing\n", b"\t\ta\t=\t1\t\n"]:
         out.append(Case("rt", [t], {"kind": "exact", "n": 2}))
+    out.extend(header_order_family(rng, tier))
     for t in [b"a.b = 1\n\"a\" .c = 2\n", b"[a.b]\n[ a . c ]\n", b"a.b = 1\nc = 2\na.d = 3\n", b"[[a]]\n[[ a ]]\n", b"t = { a.b = 1, c = 2, a.d = 3 }\n"]:
         out.append(Case("rt", [t], {"kind": "general", "n": 2}))
     return out
